@@ -6,9 +6,9 @@
     rv32i_fence_sound, fence_encode
   MSP430 16-bit core (NakenVerif.Msp430.{Arch,Asm,Disasm,Spec,AsmProofs,AsmProps,AsmSound,DisRows,DisSound,RoundTrip},
   namespace NakenVerif.Msp430): msp430_encode_sound, msp430_optimize_only_rewrites_index0, msp430_encode_len,
-  msp430_walk_exact, msp430_fixpoint_structured_partial, arch_len, arch_reading, table_spec_rows, table_cmd_codes,
+  msp430_walk_exact, msp430_fixpoint_structured (bytewise; Fixpoint.lean), arch_len, arch_reading, table_spec_rows, table_cmd_codes,
   table_core_types, table_no_shadow, table_core_rows, table_core_names, table_dis_kinds, msp430_pcinc_counterexample
 -/
 import NakenVerif.Riscv.Props
 import NakenVerif.Riscv.RoundTrip
-import NakenVerif.Msp430.RoundTrip
+import NakenVerif.Msp430.Fixpoint
